@@ -145,6 +145,30 @@ theorem step_ok (I M) (fr : Frameable I M) (hsafe : ∀ (c : Cfg) (op : Op), Saf
     simp only [step]
     refine ⟨fr.errnoI _ _ hI, ?_⟩
     exact chain_step I M fr c.st _ _ hch (fr.errnoM _ _ _ (fr.refl _))
+  | foreign hc op' =>
+    have hstep : step c (.foreign hc op') = foreignStep c hc op' := rfl
+    rw [hstep]
+    unfold foreignStep
+    simp only
+    split
+    · split
+      · exact ⟨fr.emitI _ _ hI, chain_step I M fr c.st _ _ hch (fr.emitM _ _ _ (fr.refl _))⟩
+      · exact ⟨fr.emitI _ _ (fr.emitI _ _ hI),
+          chain_step I M fr c.st _ _ hch (fr.emitM _ _ _ (fr.emitM _ _ _ (fr.refl _)))⟩
+    · exact ⟨fr.emitI _ _ (fr.emitI _ _ hI),
+        chain_step I M fr c.st _ _ hch (fr.emitM _ _ _ (fr.emitM _ _ _ (fr.refl _)))⟩
+  | xtell m name pill =>
+    have hstep : step c (.xtell m name pill) = xtellStep c m name pill := rfl
+    rw [hstep]
+    unfold xtellStep
+    simp only
+    split
+    · split
+      · exact ⟨fr.emitI _ _ hI, chain_step I M fr c.st _ _ hch (fr.emitM _ _ _ (fr.refl _))⟩
+      · exact ⟨fr.emitI _ _ (fr.emitI _ _ hI),
+          chain_step I M fr c.st _ _ hch (fr.emitM _ _ _ (fr.emitM _ _ _ (fr.refl _)))⟩
+    · exact ⟨fr.emitI _ _ (fr.emitI _ _ hI),
+        chain_step I M fr c.st _ _ hch (fr.emitM _ _ _ (fr.emitM _ _ _ (fr.refl _)))⟩
   | _ =>
     all_goals
       simp only [step]
